@@ -11,7 +11,8 @@
    that covers it.  Both are stated for ALL parameters of D (destination states, thresholds, pooled buffers, the
    behaviour of zlib, fuel). *)
 From Coq Require Import List NArith ZArith.
-From GoMC Require Import Base.Bytes Base.Dec Gen.Consts Model.C09 Proofs.C09 Proofs.C09_writer Proofs.C09_more Proofs.C09_inst.
+From GoMC Require Import Base.Bytes Base.Dec Gen.Consts Model.C09 Proofs.C09 Proofs.C09_writer Proofs.C09_more Proofs.C09_inst Proofs.C09_gen.
+From GoMC Require Gen.C09gen Proofs.C09_idioms Proofs.C06_tie_r Proofs.C07_skel Proofs.C16_skel Model.C07_syntax.
 From GoMC Require Model.C05 Model.C06 Model.C07 Model.C16 Model.C11 Model.C01.
 Import ListNotations.
 Open Scope N_scope.
@@ -244,6 +245,63 @@ Example C09_ex_nbtfield :
   nbtfield_errn (Model.C01.dec_any 9) [8; 0; 3; 104] = 4.
 Proof. repeat split; vm_compute; reflexivity. Qed.
 
+(* ================================================================== phase 3: over the TRANSLATED readers and writers
+   Every term below is regenerated from the Go source on each run (Gen/C06gen.v by tools/gotrans/c06.go, Gen/C07gen.v
+   by c07.go through the interpreter of Proofs/C07_skel.v, Gen/C16gen.v by c16.go through Proofs/C16_skel.v,
+   Gen/C03gen.v by c03.go); robustness is proved on the generated term.  frag_invariant = C09_fragment (every
+   division of the stream, error with or after the last piece, any terminal error: same value, count, residual);
+   fault_safe = C09_eof / C09_err (the source ends or fails at any offset: the error when short of the reader's need,
+   the unchanged value when not). *)
+Theorem C09_fragment_fields_translated : fields_translated (@frag_invariant).
+Proof. exact (fields_translated_of (@frag_invariant) (@robust_frag_invariant)). Qed.
+Theorem C09_eof_fields_translated : fields_translated (@fault_safe).
+Proof. exact (fields_translated_of (@fault_safe) (@robust_fault_safe)). Qed.
+(* the VarInt reader the String / ByteArray / BitSet terms are closed with in Proofs/C06_tie_r.v (C05's loop) *)
+Theorem C09_fields_varint_parameter : robust Proofs.C06_tie_r.varint_rd.
+Proof. exact Proofs.C06_tie_r.robust_varint_rd. Qed.
+Theorem C09_fragment_frame_translated : forall inflate thr pool old,
+  frag_invariant (Proofs.C07_skel.interp_unpack inflate thr pool old).
+Proof. exact (fun i t p o => robust_frag_invariant _ (interp_unpack_robust i t p o)). Qed.
+Theorem C09_eof_frame_translated : forall inflate thr pool old,
+  fault_safe (Proofs.C07_skel.interp_unpack inflate thr pool old).
+Proof. exact (fun i t p o => robust_fault_safe _ (interp_unpack_robust i t p o)). Qed.
+(* ... and ANY skeleton the translator can emit is interpreted without a bare Read *)
+Theorem C09_frame_interpreter_robust : forall deflate inflate pool R (s : Model.C07_syntax.sem_stmt) (ret k : Proofs.C07_skel.st -> dec R),
+  (forall σ, robust (ret σ)) -> (forall σ, robust (k σ)) ->
+  forall σ, robust (Proofs.C07_skel.exec deflate inflate pool s ret k σ).
+Proof. exact (fun d i p R => @exec_robust d i p R). Qed.
+Theorem C09_fragment_rcon_translated : frag_invariant Proofs.C16_skel.sem_ReadPacket.
+Proof. exact (robust_frag_invariant _ g_rcon). Qed.
+Theorem C09_eof_rcon_translated : fault_safe Proofs.C16_skel.sem_ReadPacket.
+Proof. exact (robust_fault_safe _ g_rcon). Qed.
+Theorem C09_fragment_nbt_translated : nbt_translated (@frag_invariant).
+Proof. exact (nbt_translated_of (@frag_invariant) (@robust_frag_invariant)). Qed.
+Theorem C09_eof_nbt_translated : nbt_translated (@fault_safe).
+Proof. exact (nbt_translated_of (@fault_safe) (@robust_fault_safe)). Qed.
+
+(* writers: the Write-call lists of Model/C09.v have exactly the byte image the TRANSLATED writer hands to w.Write, and
+   a destination failing after any k < that image's length yields an error *)
+Theorem C09_write_fields_translated : field_writers_translated.
+Proof. exact field_writers_translated_ok. Qed.
+Theorem C09_write_rcon_translated : forall id ty pl img,
+  Proofs.C16_skel.sem_WritePacket id ty pl = Some img -> writer_safe (rcon_calls id ty pl) img.
+Proof. exact gw_rcon. Qed.
+Theorem C09_write_frame_translated : forall deflate thr pool id data img,
+  in_sw 32 id -> (Z.of_N (lenN data) < 2 ^ 62)%Z -> (Z.of_N (lenN (deflate (Model.C05.write32 id ++ data))) < 2 ^ 62)%Z ->
+  Proofs.C07_skel.interp_pack deflate thr pool (id, data) = Ret img -> writer_safe (pack_calls deflate thr pool (id, data)) img.
+Proof. exact gw_pack. Qed.
+
+(* THE I/O IDIOM TABLE (Gen/C09gen.v, tools/gotrans/c09.go): every call on an io.Reader / io.Writer in the anchor files
+   with the function it is in, the idiom, the stream and what happens to its results.  It is the table recorded
+   in Proofs/C09_idioms.v, and - evaluated on the generated table - it satisfies the policy: a bare r.Read only in
+   countingReader.Read and nbt reader.ReadByte; no io.ReadAtLeast / LimitReader / io.Copy / bufio / ioutil /
+   ReadString / Peek ...; io.ReadAll only in PluginMessageData.ReadFrom; every read's error kept; every Write whose
+   error is not kept goes to an in-memory buffer. *)
+Theorem C09_io_idioms_recorded : Gen.C09gen.c09_io_calls = Proofs.C09_idioms.expected_io_calls.
+Proof. exact Proofs.C09_idioms.io_table_recorded. Qed.
+Theorem C09_io_policy : Proofs.C09_idioms.policy Gen.C09gen.c09_io_calls = true.
+Proof. exact Proofs.C09_idioms.io_policy_holds. Qed.
+
 Print Assumptions C09_src_is_chunked.
 Print Assumptions C09_fragment_generic.
 Print Assumptions C09_fault_generic.
@@ -303,3 +361,18 @@ Print Assumptions C09_errn_le.
 Print Assumptions C09_errn_bits_le.
 Print Assumptions C09_write_nbt_marshaler.
 Print Assumptions C09_dyn_value_tree.
+Print Assumptions C09_fragment_fields_translated.
+Print Assumptions C09_eof_fields_translated.
+Print Assumptions C09_fields_varint_parameter.
+Print Assumptions C09_fragment_frame_translated.
+Print Assumptions C09_eof_frame_translated.
+Print Assumptions C09_frame_interpreter_robust.
+Print Assumptions C09_fragment_rcon_translated.
+Print Assumptions C09_eof_rcon_translated.
+Print Assumptions C09_fragment_nbt_translated.
+Print Assumptions C09_eof_nbt_translated.
+Print Assumptions C09_write_fields_translated.
+Print Assumptions C09_write_rcon_translated.
+Print Assumptions C09_write_frame_translated.
+Print Assumptions C09_io_idioms_recorded.
+Print Assumptions C09_io_policy.
